@@ -52,7 +52,8 @@ CHECKS = {
                 text="Sequential: BFS closure (frontier empty) over every history of construct/copy/move/assign (all ordered pairs incl. self and aliases)/"
                      "converting/reset/swap/unify/destroy on 4 handle variables; in every state use_count == number of handles, destructor log exact, ASan. "
                      "Concurrent: every multiset of 2-3 thread scripts copying/moving/dropping private handles to one shared object, every interleaving "
-                     "within the preemption bound, ASan build (use-after-free, assert in ~ReferenceCounter, destroyed exactly once) and TSan build (payload races).",
+                     "within the preemption bound, ASan build (use-after-free, assert in ~ReferenceCounter, destroyed exactly once) and TSan build (payload races); "
+                     "the same scenarios are also explored without a bound in explicit-state mode (abstract state = scheduler state + call-site chains + reference count + destructor count).",
                 note="SC interleavings; preemption bound 2-3 (2 threads) / 1-2 (3 threads); handle variables themselves are thread-private as documented"),
     "C10": dict(engine="vsched", technique=E1, design="4/C10",
                 text="Job-graph scenarios (independent jobs, job->child->grandchild, second enqueuing thread, job calling terminate(), terminate()/destruction "
@@ -60,15 +61,20 @@ CHECKS = {
                      "bound (preemption bound 1-3 quick / 2-4 thorough for 1-2 workers; delay bound 2 / 3 where 3 workers or 4+ threads make free switches explode) "
                      "and every notify_one target, on the real ThreadPool: per-job counters (exactly once), queue empty and busy==0 at the instant "
                      "loop_until_empty returns, done() count, no deadlock / lost wake-up (no runnable thread = deadlock), ASan build + TSan build (visibility of "
-                     "plain job results to the waiter, no race).",
+                     "plain job results to the waiter, no race). In addition the 1- and 2-worker scenarios are explored WITHOUT a bound in explicit-state mode: DFS over all "
+                     "scheduling choices, pruned at abstract states seen before (scheduler state + per-thread call-site chain, pending operation and loop tag + the pool's "
+                     "fields and the job ledger), i.e. every interleaving at scheduling-point granularity.",
                 note="SC interleavings only; bounded preemptions/delays; exceptions escaping jobs and thread-creation failure not modelled"),
     "C11": dict(engine="vsched", technique=E1, design="4/C11",
                 text="Semaphore: every multiset of per-thread call scripts over {signal(), signal(n), wait(d,s), try_acquire(d,s)} (2-4 threads, 1-2 calls each, "
                      "bounded total, initial value 0/1) under every interleaving within the preemption bound and every notify target: linearised call log replayed "
                      "against a counter model (conservation, wait returns only with value >= delta+slack, return values), and at every quiescent state no blocked "
                      "waiter may be covered by the value (stranded waiter). Barriers (Mutex/Spin x wait/wait_yield): n=1..4 threads x 1..3 generations, ghost "
-                     "counters: nobody leaves generation g before all entered, action exactly once, by the last arriver, before any release; reuse.",
-                note="SC interleavings only; no spurious wake-ups; preemption bound 1 (quick) / 2-3 (thorough); TSan is not an oracle here (no race claim in C11)"),
+                     "counters: nobody leaves generation g before all entered, action exactly once, by the last arriver, before any release; reuse. "
+                     "2-thread (and small 3-thread) semaphore scenarios and barriers with n<=3, g<=2 are additionally explored without a bound in explicit-state mode (abstract "
+                     "state = scheduler state + call-site chains + semaphore value / barrier fields + ghost counters + the call log); the mutex barrier also gets one injected "
+                     "spurious wake-up per execution.",
+                note="SC interleavings only; preemption bound 1 (quick) / 1-3 (thorough) for the bounded part; explicit-state mode relies on the stated state abstraction (checked: an abstract state reached with two different option sets is a hard error); TSan is not an oracle here (no race claim in C11)"),
     "C05": dict(engine="venum", technique=E3, design="4/C05",
                 text="Every tuple of sorted sequences over 3 keys (k = 0..6 quick / 0..9 thorough, lengths 0..4/5 within total caps, plus dense and dominant-sequence "
                      "families), every length 0..total, every entry point {multiway_merge, stable_, _sentinels, stable_.._sentinels, multiway_merge_base} x "
